@@ -152,10 +152,7 @@ func (e *Exec) check(cond *Term, kind, what string, pos token.Pos) {
 		return
 	}
 	e.nAssertQ++
-	r := "sat"
-	if !cond.isFalse() {
-		r = e.sat(e.tb.Not(cond))
-	}
+	r := e.sat(e.tb.Not(cond))
 	switch r {
 	case "unsat":
 		e.assume(cond)
@@ -534,6 +531,12 @@ func (e *Exec) step(f *frame, in ssa.Instruction) {
 			panic(specAbort{"alloc"})
 		}
 		et := x.Type().(*types.Pointer).Elem()
+		if at, ok := et.Underlying().(*types.Array); ok && isByteType(at.Elem()) && at.Len() > 0 {
+			// standalone byte arrays (also what go/ssa makes of make([]byte, const)) are byte objects
+			n := int(at.Len())
+			e.setv(f, x, &Ptr{obj: e.newObj(&BArr{b: e.newBObj(e.tb.K(64, uint64(n)), n, "array"), n: n}, et, x.Comment)})
+			break
+		}
 		e.setv(f, x, &Ptr{obj: e.newObj(e.zero(et), et, x.Comment)})
 	case *ssa.FieldAddr:
 		p := e.ptr(e.val(f, x.X), x.Pos())
@@ -650,6 +653,13 @@ func (e *Exec) load(pv Value, pos token.Pos) Value {
 		return e.bread(p.b, len(p.b.log), p.idx)
 	}
 	v := getPath(p.obj.v, p.path)
+	if ba, ok := v.(*BArr); ok {
+		arr := make(ArrV, ba.n)
+		for i := range arr {
+			arr[i] = e.bread(ba.b, len(ba.b.log), e.tb.K(64, uint64(i)))
+		}
+		return arr
+	}
 	if p.sidx != nil {
 		arr := v.(ArrV)
 		var r *Term
@@ -670,6 +680,12 @@ func (e *Exec) store(pv Value, v Value, pos token.Pos) {
 	p := e.ptr(pv, pos)
 	if p.b != nil {
 		e.bstore(p.b, p.idx, v.(*Term))
+		return
+	}
+	if ba, ok := p.obj.v.(*BArr); ok && len(p.path) == 0 {
+		for i, x := range v.(ArrV) {
+			e.bstore(ba.b, e.tb.K(64, uint64(i)), x.(*Term))
+		}
 		return
 	}
 	if p.sidx != nil {
@@ -702,6 +718,9 @@ func (e *Exec) indexAddr(f *frame, x *ssa.IndexAddr) Value {
 		p := e.ptr(base, x.Pos())
 		at := x.X.Type().Underlying().(*types.Pointer).Elem().Underlying().(*types.Array)
 		e.check(e.inRange(idx, e.tb.K(64, uint64(at.Len()))), "panic", "index out of range", x.Pos())
+		if ba, ok := p.obj.v.(*BArr); ok && len(p.path) == 0 {
+			return &Ptr{b: ba.b, idx: idx}
+		}
 		if idx.isConst() {
 			return &Ptr{obj: p.obj, path: appendPath(p.path, int(idx.k))}
 		}
@@ -1225,6 +1244,9 @@ func (e *Exec) sliceOp(f *frame, x *ssa.Slice) Value {
 		mx := get(x.Max, n)
 		ok := tb.And(tb.And(tb.Cmp(OSle, zero, lo), tb.Cmp(OSle, lo, hi)), tb.And(tb.Cmp(OSle, hi, mx), tb.Cmp(OSle, mx, n)))
 		e.check(ok, "panic", "slice bounds out of range", x.Pos())
+		if ba, isB := p.obj.v.(*BArr); isB && len(p.path) == 0 {
+			return &Slice{b: ba.b, off: lo, len: tb.Bin(OSub, hi, lo), cap: tb.Bin(OSub, mx, lo), elem: at.Elem()}
+		}
 		return &Slice{c: p.obj, cpath: p.path, off: lo, len: tb.Bin(OSub, hi, lo), cap: tb.Bin(OSub, mx, lo), elem: at.Elem()}
 	}
 	e.unsupported("Slice of %T", e.val(f, x.X))
